@@ -1,7 +1,8 @@
 (* C18 - measurement schedules: soundness of the checkers that decide the property on the
    implementation's complete output for every list length of the explored range. *)
 From Coq Require Import Arith List Bool.
-From OFV Require Import Check.Schedules.
+From Coq Require Import Permutation.
+From OFV Require Import Base.Cplx Sem.PauliSem Model.QubitOp Model.Grouping Check.Schedules Thm.C18.Grouping.
 Import ListNotations.
 
 Theorem C18_pair_within_checker_sound : forall labels ps, pair_within_ok labels ps = true ->
@@ -18,3 +19,15 @@ Theorem C18_partition_checker_sound : forall labels k parts, partitions_ok label
   forall s, In s (subsets_k k labels) -> exists ps, In ps parts /\ splits s ps = true.
 Proof. exact partitions_ok_sound. Qed.
 Print Assumptions C18_partition_checker_sound.
+
+(* [F] group_into_tensor_product_basis_sets: for every sequence of shuffles (every seed), and every
+   operator whose words act on each qubit at most once, the groups partition the terms, the bases are
+   pairwise distinct (no dictionary entry is overwritten), and every term is contained in its basis. *)
+Theorem C18_grouping_is_partition : forall (choose : nat -> list gkey -> list gkey) terms,
+  (forall i l x, In x (choose i l) <-> In x l) ->
+  Forall (fun tc : pword * C => uniq (fst tc)) terms ->
+  let gs := grouping choose terms in
+  Permutation (members gs) terms /\ NoDup (keys gs) /\
+  (forall k ms, In (k, ms) gs -> uniq k /\ forall tc, In tc ms -> sub (fst tc) k).
+Proof. exact grouping_is_partition. Qed.
+Print Assumptions C18_grouping_is_partition.
